@@ -615,6 +615,7 @@ pub fn registry(prop: &str) -> Option<Check> {
             stub,
         },
         "C04" => crate::props::c04::check(),
+        "C12" => crate::props::c12::check(),
         _ => return None,
     })
 }
